@@ -230,7 +230,15 @@ class C13(Check):
         for name in core.reset_lark_process_state():
             out.count('probe:process-state-left-by-an-earlier-run:' + name)
         cfg = plan['config']
-        p = self.lark_for(cfg, plan.get('lalr_salt', 0))
+        self.lark_for(cfg)                                   # (terminal names of the configuration; the plan generator's instance)
+        # the instance under test is built for this run and dropped after it (~10 ms): whatever sessions of an EARLIER run left on a
+        # long-lived instance (a memo on the shared _Parser, say) would make a violation that its replay file cannot reproduce
+        from sim import seams
+        seams.set_lalr_salt(plan.get('lalr_salt', 0))
+        try:
+            p = W.build(cfg)
+        finally:
+            seams.set_lalr_salt(0)
         e = W.ENTRIES[cfg.partition('/')[0]]
         IMM = _IMM()
         terms = self.termnames[cfg]
